@@ -18,3 +18,20 @@ package analysisutil
 //@   ensures method_is_callee_name: called(f, cid) ==> cid.Method == node.Call.Value.Name()
 //@   ensures no_extra_constraints: called(f, cid) ==> cid.Receiver == "" && cid.Field == "" && cid.Type == "" && cid.Kind == "" && cid.Label == "" && cid.Interface == ""
 //@   ensures decided_by_oracle: result ==> called(f, _)
+
+// IsEntrypointNode: the identifiers it hands to the oracle itself (interface-method
+// calls, field reads, allocations, field stores, channel receives) carry the full
+// name of the enclosing function as Context and the documented Kind; nodes of any
+// other kind are never entry points.
+//@ func IsEntrypointNode
+//@   property C04
+//@   ghost cid config.CodeIdentifier
+//@   requires n != nil ==> ref(n) != 0
+//@   requires istype(n, *ssa.Call) ==> n.(*ssa.Call).Parent() != nil && n.(*ssa.Call).Call.Value != nil
+//@   ensures invoke: istype(n, *ssa.Call) && called(f, cid) ==> cid.Context == n.(*ssa.Call).Parent().String() && cid.Method == n.(*ssa.Call).Call.Method.Name() && cid.Receiver == n.(*ssa.Call).Call.Value.Name() && cid.Kind == ""
+//@   ensures alloc: istype(n, *ssa.Alloc) && called(f, cid) ==> cid.Context == n.(*ssa.Alloc).Parent().String() && cid.Kind == "" && cid.Field == "" && cid.Method == ""
+//@   ensures field: istype(n, *ssa.Field) && called(f, cid) ==> cid.Context == n.(*ssa.Field).Parent().String() && cid.Kind == "" && cid.Method == ""
+//@   ensures fieldaddr: istype(n, *ssa.FieldAddr) && called(f, cid) ==> cid.Context == n.(*ssa.FieldAddr).Parent().String() && cid.Kind == "" && cid.Method == ""
+//@   ensures store: istype(n, *ssa.Store) && called(f, cid) ==> cid.Context == n.(*ssa.Store).Parent().String() && cid.Kind == "store" && cid.Method == ""
+//@   ensures receive: istype(n, *ssa.UnOp) && called(f, cid) ==> cid.Context == n.(*ssa.UnOp).Parent().String() && cid.Kind == "channel receive" && n.(*ssa.UnOp).Op == token.ARROW
+//@   ensures other_kinds: !istype(n, *ssa.Call) && !istype(n, *ssa.Alloc) && !istype(n, *ssa.Field) && !istype(n, *ssa.FieldAddr) && !istype(n, *ssa.Store) && !istype(n, *ssa.UnOp) ==> !result
